@@ -73,7 +73,20 @@ class Runs(Part):
         alg.options['max_population_number'] = g
         alg.options['max_population_size'] = n
         alg.options['verbose_level'] = 0
-        st, res = observe(alg.run)
+        accepts = []
+        from artap.operators import Selector
+        orig_accept = Selector.pop_acceptance
+        if alg_name == "epsmoea":
+            # every steady-state acceptance step of the real run is observed (population before, offspring, population after)
+            def watched(self_, individuals, individual):
+                before = list(individuals)
+                orig_accept(self_, individuals, individual)
+                accepts.append((before, individual, list(individuals)))
+            Selector.pop_acceptance = watched
+        try:
+            st, res = observe(alg.run)
+        finally:
+            Selector.pop_acceptance = orig_accept
         ev = {"ev": "run", "alg": alg_name, "n": n, "g": g, "nevalok": 0, "tags": [], "gens": [], "offs": [], "single": m == 1,
               "unconstrained": True, "exc": "" if st == "ok" else res}
         if st == "exc":
@@ -103,7 +116,16 @@ class Runs(Part):
             ev["offs"] = [[member(rec.keep[k - 1]) for k in ch] for ch in chunks]
             while len(ev["offs"]) < len(ev["gens"]):
                 ev["offs"].append([])
-        return [ev]
+        trace = [ev]
+
+        def sol(i):
+            return {"c": [rank_of[j][float(c)] for j, c in enumerate(i.costs_signed[:-1])], "m": absx.abstract_marker(i.costs_signed[-1])}
+        for before, x, after in accepts[:60]:
+            try:
+                trace.append({"ev": "popaccept", "pop": [sol(i) for i in before], "x": sol(x), "after": [sol(i) for i in after], "exc": ""})
+            except KeyError:
+                continue
+        return trace
 
     def nontrivial(self, case, trace):
         return len(trace[0]["gens"]) >= 2
